@@ -4,11 +4,14 @@
 //! Methods with a callback (`with_cb`, `with_mut_cb`) check the NESTED connection too: what the
 //! caller-side closure observes == up_i(down_min(p)) for the value p the implementation handed
 //! to it, and what the implementation gets back == up_j(down_min(r)) for the closure's answer r.
+use crate::c10obj as obj;
 use crate::model10 as model;
 use std::collections::{BTreeMap, HashSet};
 use std::io::Write;
+use vabi10ofam::ospec;
 use vabi10fam::spec::{self, NVal, Node, Scalar};
 use vabi10fam::support::{take_cb_log, take_log, CallerShim, Ret};
+use vabi10ofam::support::ObjShim;
 use vcommon::serde_json::{json, Map, Value};
 use vcommon::{Run, Tier, Violation};
 
@@ -44,6 +47,8 @@ pub enum Entry {
     Pair(usize, usize),
     /// base, kind of change, the changed definition is the caller
     Break(char, &'static str, bool),
+    /// object family (`ospec`): kind index, caller revision index, implementation revision index
+    Obj(usize, usize, usize),
 }
 
 pub struct Ctx {
@@ -51,10 +56,11 @@ pub struct Ctx {
     pub max_depth: u32,
     /// worker mode: report cross-version by-reference pairs to the parent
     pub report_pairs: bool,
+    pub tier: Tier,
 }
 impl Ctx {
     pub fn new(tier: Tier) -> Ctx {
-        Ctx { nodes: spec::tree(), max_depth: tier.pick(2, 3), report_pairs: false }
+        Ctx { nodes: spec::tree(), max_depth: tier.pick(2, 3), report_pairs: false, tier }
     }
     pub fn entries(&self) -> Vec<Entry> {
         let mut v = vec![];
@@ -70,6 +76,9 @@ impl Ctx {
                 v.push(Entry::Break(*b, k, true));
                 v.push(Entry::Break(*b, k, false));
             }
+        }
+        for (k, c, j) in obj::entries() {
+            v.push(Entry::Obj(k, c, j));
         }
         v
     }
@@ -619,6 +628,65 @@ pub fn child(tier: Tier, k: usize, n: usize, resume: (i64, u64)) -> ! {
                     poisoned = o.poisoned;
                 }
             }
+            Entry::Obj(ki, oc, oj) => {
+                let k = &ospec::KINDS[*ki];
+                let rs = ospec::revs(k);
+                let (cr, jr) = (&rs[*oc], &rs[*oj]);
+                let cases = obj::cases(ctx.tier, k, cr, jr);
+                let total = cases.len();
+                let mut shim: Option<Box<dyn ObjShim>> = None;
+                let differ = cr != jr;
+                if pos as i64 == resume.0 && resume.1 >= 1 {
+                    // the connection of this entry was made by the process that died: make it again
+                    let mut made = None;
+                    let mut scratch = Stats::default();
+                    let _ = obj::check_case(k, cr, jr, None, &mut made, &cases[0], &mut scratch);
+                    if made.is_none() {
+                        println!("E cannot re-create the connection of object entry {} after a restart", pos);
+                    }
+                    shim = made;
+                }
+                for (ci, case) in cases.iter().enumerate() {
+                    let sno = ci as u64 + 1;
+                    if pos as i64 == resume.0 && sno <= resume.1 {
+                        continue;
+                    }
+                    vcommon::child::set_state(&format!("pos={} sno={}", pos, sno));
+                    let mut made = None;
+                    let o = obj::check_case(k, cr, jr, shim.as_deref(), &mut made, case, &mut st);
+                    if made.is_some() {
+                        shim = made;
+                    }
+                    st.add("states", 1);
+                    st.add("obj.states", 1);
+                    if differ {
+                        st.add("nontrivial", 1);
+                        st.add("obj.nontrivial", 1);
+                    }
+                    for v in &o.violations {
+                        println!("F {}", json!({"oracle": v.oracle, "tags": v.tags, "summary": v.summary, "case": v.case}));
+                    }
+                    if let Some(m) = o.machinery {
+                        println!("E {}", m);
+                    }
+                    if (ci == 0 && pos % 97 == 0) || (ci == 1 && pos % 89 == 0) {
+                        println!("X {}", json!({"pos": pos, "sno": sno, "case": obj::case_json(k, cr, jr, case)}));
+                    }
+                    if o.poisoned {
+                        poisoned = true;
+                        break;
+                    }
+                    if o.no_connection {
+                        st.add("obj.cases_without_connection", (total - ci - 1) as u64);
+                        break;
+                    }
+                }
+                st.add("obj.pairs", 1);
+                if differ {
+                    st.add("obj.pairs_of_different_revisions", 1);
+                }
+                drop(shim);
+            }
             Entry::Pair(c, j) => {
                 let cases = pair_cases(&ctx, *c);
                 let total = cases.len();
@@ -717,6 +785,7 @@ pub fn parent(run: &mut Run) -> (Map<String, Value>, Vec<String>) {
             vcommon::machinery_error(&format!("binding: generated interface of node {} reports version {:?}, the tree says {}", n.id, shard_latest(shard, &n.id), n.depth));
         }
     }
+    obj::check_binding();
     let workers = run.tier.pick(8, 14);
     let base = vec![run.property.clone(), "--tier".to_string(), run.tier.name().to_string()];
     let mut stats = Stats::default();
@@ -793,6 +862,25 @@ pub fn parent(run: &mut Run) -> (Map<String, Value>, Vec<String>) {
                             case: break_json(*b, kind, *side),
                         });
                     }
+                    Some(Entry::Obj(ki, oc, oj)) => {
+                        let k = &ospec::KINDS[*ki];
+                        let rs = ospec::revs(k);
+                        let (cr, jr) = (&rs[*oc], &rs[*oj]);
+                        let cases = obj::cases(ctx.tier, k, cr, jr);
+                        let Some(case) = cases.get(sno as usize - 1) else {
+                            g.2.push(format!("worker {} died in unknown state {}/{}", c.worker, pos, sno));
+                            return;
+                        };
+                        let mut t = obj::tags(k, cr, jr);
+                        t.insert("outcome".into(), "process_died".into());
+                        t.insert("step".into(), case.step.into());
+                        g.0.violation(Violation {
+                            oracle: "process_abort".into(),
+                            tags: t,
+                            summary: format!("process died ({}) during object family {} caller {} -> implementation {} {} (base {}, x {}, method #{}): {}", c.status, k.id, cr.id(), jr.id(), case.step, case.base, case.x, case.sel, msg),
+                            case: obj::case_json(k, cr, jr, case),
+                        });
+                    }
                     None => g.2.push(format!("worker {} died in unknown entry {}", c.worker, pos)),
                 }
             },
@@ -817,13 +905,29 @@ pub fn parent(run: &mut Run) -> (Map<String, Value>, Vec<String>) {
     if g("pairs_cross_version") < 2 || g("nontrivial") < 2 || oc.len() < 2 || g("rule.receiver_filled_default_or_ctor_value") == 0 || g("rule.sender_field_dropped") == 0 || g("oc.missing_method_panicked") + g("oc.missing_method_unclear_panic") + g("oc.missing_method_returned") == 0 || g("oc.callback_values_as_modelled") + g("oc.callback_values_differ") == 0 || g("rule.callback_argument_crossed_versions_with_field_set_change") == 0 {
         vcommon::machinery_error(&format!("vacuous exploration: {:?}", stats.0));
     }
+    // vacuity guards of the object family: every class of the model occurs in both positions, refusals and
+    // connections both happen, nested objects are really invoked, missing methods really panic
+    for key in ["obj.model.argument.compatible", "obj.model.argument.must_refuse", "obj.model.argument.missing_method", "obj.model.return.compatible", "obj.model.return.must_refuse", "obj.model.return.missing_method", "obj.model.interface.compatible", "obj.model.interface.must_refuse", "oc.nested_incompatible_bounds_refused", "oc.nested_compatible_connected", "oc.nested_call_as_modelled", "obj.pairs_of_different_revisions"] {
+        if g(key) == 0 {
+            vcommon::machinery_error(&format!("vacuous exploration of the object family: {} = 0: {:?}", key, stats.0));
+        }
+    }
     let mut cov = Map::new();
     samples.sort_by(|a, b| (a.0, a.1).cmp(&(b.0, b.1)));
     if !samples.is_empty() {
-        let n = samples.len();
-        let mut idx: Vec<usize> = (0..10).map(|i| i * (n - 1) / 9).collect();
-        idx.dedup();
-        cov.insert("samples".into(), Value::Array(idx.into_iter().map(|i| samples[i].2.clone()).collect()));
+        // a few evenly spread cases of the history family and of the object family
+        let (objs, hist): (Vec<_>, Vec<_>) = samples.iter().partition(|s| s.2["kind"] == "object");
+        let mut picked: Vec<Value> = vec![];
+        for (set, want) in [(&hist, 7usize), (&objs, 5usize)] {
+            let n = set.len();
+            if n == 0 {
+                continue;
+            }
+            let mut idx: Vec<usize> = (0..want).map(|i| i * (n - 1) / (want - 1)).collect();
+            idx.dedup();
+            picked.extend(idx.into_iter().map(|i| set[i].2.clone()));
+        }
+        cov.insert("samples".into(), Value::Array(picked));
     }
     let in_tier: Vec<&Node> = ctx.nodes.iter().filter(|n| n.depth <= ctx.max_depth).collect();
     cov.insert("states".into(), json!(g("states")));
@@ -833,7 +937,7 @@ pub fn parent(run: &mut Run) -> (Map<String, Value>, Vec<String>) {
     cov.insert("distinct_nontrivial".into(), json!(g("nontrivial")));
     cov.insert(
         "rule".into(),
-        json!("history tree: 3 base definitions x all sequences of ABI-usable edits up to the depth bound; node at depth n = definition of T and of trait Iface at version n. For every ordered pair (caller node, implementation node) on a common path, incl. i == j: one connection (from_boxed_trait_for_test) checked for negotiated version and method mapping, then every enumerated value of the caller's T x {echo, by_ref, observe, with_cb (closure Fn(T) -> T), with_mut_cb (closure FnMut(T))}, every vector case x vecs, every plain method (legacy / added_k) x 3 arguments; plus breaking re-declarations of the version-0 interface in both roles. A state is a distinct (caller, implementation, method, arguments); it is non-trivial when caller and implementation versions differ (i != j), and every breaking variant is non-trivial."),
+        json!("history tree: 3 base definitions x all sequences of ABI-usable edits up to the depth bound; node at depth n = definition of T and of trait Iface at version n. For every ordered pair (caller node, implementation node) on a common path, incl. i == j: one connection (from_boxed_trait_for_test) checked for negotiated version and method mapping, then every enumerated value of the caller's T x {echo, by_ref, observe, with_cb (closure Fn(T) -> T), with_mut_cb (closure FnMut(T))}, every vector case x vecs, every plain method (legacy / added_k) x 3 arguments; plus breaking re-declarations of the version-0 interface in both roles; plus the object family: for every kind of nested object (trait object / closure / future, in argument / return position, see object_family.kinds) every ordered pair of revisions (bounds x method set x version) connected with AbiConnection::from_raw and judged against the provider/relier model (refused <=> the relier relies on a bound the provider does not promise), then every use of the nested object the relier can express. A state is a distinct (caller, implementation, method, arguments); it is non-trivial when caller and implementation versions differ (i != j), every breaking variant is non-trivial, and a state of the object family is non-trivial when the two revisions differ."),
     );
     cov.insert("history_depth_bound".into(), json!(ctx.max_depth));
     cov.insert("nodes".into(), json!(in_tier.len()));
@@ -858,6 +962,12 @@ pub fn parent(run: &mut Run) -> (Map<String, Value>, Vec<String>) {
     cov.insert("missing_method_panic_with_usual_wording".into(), json!(g("missing_method_panic_with_usual_wording")));
     cov.insert("cases_skipped_without_connection".into(), json!(g("cases_skipped_without_connection")));
     cov.insert("workers_abandoned_after_connect_panic".into(), json!(g("workers_abandoned_after_connect_panic")));
+    // object family
+    let mut of = sub("obj.");
+    of.insert("kinds".into(), json!(ospec::KINDS.iter().map(|k| format!("{} = {} ({} revisions, {} ordered pairs)", k.id, k.what, ospec::revs(k).len(), ospec::revs(k).len() * ospec::revs(k).len())).collect::<Vec<_>>()));
+    of.insert("revision_alphabet".into(), json!("bounds: every subset of {Send, Sync} (futures: of {Send, Sync, Unpin}) x method set of the nested trait {work} | {work, more} (trait objects only) x interface version {0, 1}"));
+    of.insert("modules_generated".into(), json!(ospec::KINDS.iter().map(|k| ospec::revs(k).len()).sum::<usize>()));
+    cov.insert("object_family".into(), Value::Object(of));
     let assumptions = vec![
         "caller and implementation live in one process and one compilation (from_boxed_trait_for_test with the other definition's ABI_ENTRY), exactly as the repository's own cross-version tests connect two definitions; layouts differing between compilations are C11".to_string(),
         "the history family is 3 bases x the 6-letter (struct) / 4-letter (enum) edit alphabet; Removed (non-ABI) and type conversions are not ABI-usable edits and are C03's subject".to_string(),
@@ -865,6 +975,8 @@ pub fn parent(run: &mut Run) -> (Map<String, Value>, Vec<String>) {
         "values using an enum variant newer than the negotiated version are documented to panic at serialization: executed, counted (unrepresentable_cases_excluded), not judged".to_string(),
         "the recording implementation is generated code of this harness; that it returns what the model says (every integer + 1, every string + '!') is checked on every call (machinery error otherwise)".to_string(),
         "a panic for a missing method is judged on: it is a panic, the implementation was not invoked, the message names the method; the exact wording is only counted".to_string(),
+        "object family: the nested object sits one level deep (an argument / the return value of a method of Iface, directly or as the Ok value of a returned Result); objects nested in the methods of nested objects, `&dyn Fn + bounds` (not expressible in the macro's syntax) and argument types other than u32 inside the nested methods are not enumerated".to_string(),
+        "object family, model: the side that creates the object (argument: caller, return value: implementation) is the provider, the other side the relier; refusal is required exactly when the relier's declaration has a Send/Sync/Unpin bound the provider's lacks; a method only the relier knows may be answered by refusal at connection time or by a panic at the moment it is invoked (both counted); a method only the provider knows must not prevent the connection".to_string(),
         "the tag explained_by is a classification computed with the harness' own encoder/decoder of the serialized form; it decides no verdict, only which known finding a failure is attributed to".to_string(),
     ];
     (cov, assumptions)
@@ -894,6 +1006,35 @@ pub fn replay(path: &std::path::Path) -> ! {
                 vcommon::machinery_error(&m);
             }
             viol = o.violations;
+        }
+        Some("object") => {
+            let k = ospec::kind(case["object_kind"].as_str().unwrap_or("")).unwrap_or_else(|| vcommon::machinery_error("replay: unknown object kind"));
+            let rev = |key: &str| ospec::find_rev(k, case[key].as_str().unwrap_or("")).unwrap_or_else(|| vcommon::machinery_error(&format!("replay: unknown revision {:?}", case[key])));
+            let (cr, jr) = (rev("caller"), rev("impl"));
+            let num = |key: &str| case[key].as_u64().unwrap_or(0) as u32;
+            println!("replaying: object family {} [{}]: caller {{{}}} -> implementation {{{}}}; model: {:?}", k.id, k.what, cr.describe(k.fam), jr.describe(k.fam), ospec::verdict(k, &cr, &jr));
+            let mut made = None;
+            let o = obj::check_case(k, &cr, &jr, None, &mut made, &obj::OCase { step: "connect", base: 0, x: 0, sel: 0 }, &mut st);
+            if let Some(m) = o.machinery {
+                vcommon::machinery_error(&m);
+            }
+            viol.extend(o.violations);
+            if case["step"].as_str() == Some("call") {
+                if let Some(shim) = made.as_deref() {
+                    let the_case = obj::OCase { step: "call", base: num("base"), x: num("x"), sel: num("sel") };
+                    if the_case.sel > 1 || (the_case.sel == 1 && !ospec::provider_relier(k, &cr, &jr).1.more) {
+                        vcommon::machinery_error("replay: the user of the object has no such method");
+                    }
+                    let mut none = None;
+                    let o = obj::check_case(k, &cr, &jr, Some(shim), &mut none, &the_case, &mut st);
+                    if let Some(m) = o.machinery {
+                        vcommon::machinery_error(&m);
+                    }
+                    viol.extend(o.violations);
+                } else {
+                    println!("no connection: the call cannot be made");
+                }
+            }
         }
         Some("call") => {
             let find = |key: &str| -> usize {
